@@ -80,8 +80,8 @@ def run(ctx):
             r = gen(cfg, mode="simulate", num=1, depth=2, timeout=600)
         drive(cfg, b, r, every3=40)
     # histories
-    sims = [("m7p7", 60, 700), ("p0p15", 50, 500), ("p3p12", 50, 400), ("m12m3", 50, 400),
-            ("m1p0", 50, 300), ("p0p0", 30, 150), ("wide", 90, 1500)]
+    sims = [("m7p7", 60, 400), ("p0p15", 50, 250), ("p3p12", 50, 200), ("m12m3", 50, 200),
+            ("m1p0", 50, 200), ("p0p0", 30, 100), ("wide", 90, 800)]
     if not thorough:
         # quick: the wide profile and two seed-chosen others (each TLC start costs 5-10 s)
         k = ctx.seed % 5
